@@ -178,7 +178,7 @@ func runC08(c *core.Ctx) *core.Violation {
 			if e.ToolAborted() {
 				break
 			}
-			if s.Now() >= end && len(dataLog(e.Tgt)) >= len(want) {
+			if s.Now() >= end && len(e.IncrLog()) >= len(want) {
 				break
 			}
 			s.Sleep(50 * time.Millisecond)
@@ -251,7 +251,7 @@ func runC08(c *core.Ctx) *core.Violation {
 		return core.Violate("no-ack", "", "the tool never sent REPLCONF ACK in %v", s.Now0())
 	}
 	// ---- end to end: the stream continued at the exact byte (commands once, in order)
-	got := dataLog(e.Tgt)
+	got := e.IncrLog()
 	for i := 0; i < len(got) || i < len(want); i++ {
 		if i >= len(want) {
 			return core.Violate("stream-continuity", "extra-command", "the target applied %s, not in the source stream at this position", fmtArgs(got[i].Args))
